@@ -470,6 +470,10 @@ func (e *Env) quant(n EQuant) Val {
 	vars := map[string]Val{}
 	var binders, guards []string
 	for _, qv := range n.Vars {
+		// a type written with a trailing '!' binds the variable without the allocated/typed guard (used to define an
+		// uninterpreted predicate on all references, whenever they come into existence)
+		unguarded := strings.HasSuffix(qv.Type, "!")
+		qv.Type = strings.TrimSuffix(qv.Type, "!")
 		t, err := x.C.ResolveType(x.P, e.pkgPath, qv.Type)
 		if err != nil {
 			e.fail("%v", err)
@@ -483,6 +487,9 @@ func (e *Env) quant(n EQuant) Val {
 		binders = append(binders, fmt.Sprintf("(%s %s)", name, sort))
 		v := e.scalarOf(t, name)
 		vars[qv.Name] = v
+		if unguarded {
+			continue
+		}
 		switch u := t.Underlying().(type) {
 		case *types.Pointer:
 			// typed, allocated, non-nil objects only
